@@ -658,10 +658,10 @@ def clone_some(rng, members):
     return members
 
 
-def gen_stream(ctx, rng, idx, n_members=None, kinds=None):
+def gen_stream(ctx, rng, idx, n_members=None, kinds=None, d=None, cols=None):
     thorough = ctx.thorough
     n = rng.randint(120, 260) if not thorough else rng.randint(150, 500)
-    d = rng.randint(1, 4)
+    d = rng.randint(1, 4) if d is None else d
     nm = rng.randint(2, 6) if n_members is None else n_members
     pool = ["DDM", "EDDM", "STEPD", "PH", "CUSUM", "ADWIN", "KDQS", "LFR", "ADWINACC"]
     weights = [3, 3, 3, 3, 3, 3, 2, 1, 1]
@@ -670,6 +670,9 @@ def gen_stream(ctx, rng, idx, n_members=None, kinds=None):
     members = [{"key": k, "det": det, "args": draw_args(rng, det), "cols": draw_cols(rng, det, d)} for k, det in zip(keys, dets)]
     if kinds is None:
         clone_some(rng, members)
+    if cols is not None:
+        for m, c in zip(members, cols):
+            m["cols"] = c
     shifts = []
     for j in range(d):
         pts = sorted(rng.sample(range(40, n - 10), rng.randint(1, 3)))
@@ -688,13 +691,17 @@ def gen_stream(ctx, rng, idx, n_members=None, kinds=None):
             "reset_on_drift": rng.random() < 0.5, "ops": ops}
 
 
-def gen_batch(ctx, rng, idx, n_members=None):
-    d = rng.randint(1, 3)
+def gen_batch(ctx, rng, idx, n_members=None, kinds=None, d=None, cols=None):
+    d = rng.randint(1, 3) if d is None else d
     nm = rng.randint(2, 5) if n_members is None else n_members
-    dets = rng.choices(["HDDDM", "CDBD", "KDQB", "NNDVI"], [3, 3, 3, 2], k=nm)
+    dets = kinds if kinds is not None else rng.choices(["HDDDM", "CDBD", "KDQB", "NNDVI"], [3, 3, 3, 2], k=nm)
     keys = rng.sample(KEYS, len(dets))
-    members = clone_some(rng, [{"key": k, "det": det, "args": draw_args(rng, det), "cols": draw_cols(rng, det, d)}
-                               for k, det in zip(keys, dets)])
+    members = [{"key": k, "det": det, "args": draw_args(rng, det), "cols": draw_cols(rng, det, d)} for k, det in zip(keys, dets)]
+    if kinds is None:
+        clone_some(rng, members)
+    if cols is not None:
+        for m, c in zip(members, cols):
+            m["cols"] = c
     nb = rng.randint(8, 14) if not ctx.thorough else rng.randint(10, 24)
     means, sds = [0.0] * d, [1.0] * d
     change = {j: sorted(rng.sample(range(2, nb), rng.randint(1, 2))) for j in range(d)}
@@ -717,7 +724,7 @@ def gen_batch(ctx, rng, idx, n_members=None):
 def gen_cases(ctx):
     rng = ctx.rng
     cases = []
-    ns, nb = ctx.scale(34, 300), ctx.scale(22, 200)
+    ns, nb = ctx.scale(34, 300), ctx.scale(20, 200)
     # degenerate sizes: no member, one member
     for nm in (0, 1):
         c = gen_stream(ctx, rng, -1, n_members=nm); c["n"] = 60; c["ops"] = [o for o in c["ops"] if o[0] == "r" or o[1] < 60]
@@ -726,11 +733,16 @@ def gen_cases(ctx):
         cases.append(gen_batch(ctx, rng, -1, n_members=nm))
     # every election kind on a fixed mix of one concept, one change and one data detector
     for kind in ("maj", "min", "ord", "conf", "pos"):
-        c = gen_stream(ctx, rng, -2, kinds=["DDM", "PH", "KDQS", "STEPD", "ADWIN"])
+        # members without a selector placed after members with one, and the other way round
+        c = gen_stream(ctx, rng, -2, kinds=["DDM", "PH", "KDQS", "STEPD", "ADWIN"], d=3,
+                       cols=[None, [rng.randrange(3)], None, rng.sample(range(3), 2), [rng.randrange(3)]])
         el = {"maj": {"kind": "maj"}, "min": {"kind": "min", "a": 2}, "ord": {"kind": "ord", "a": 1, "c": 1},
               "conf": {"kind": "conf", "s": 2, "w": 25}, "pos": {"kind": "pos", "ws": [1, 8, 2, 4, 16], "thr": 9}}[kind]
         c["election"] = el
         cases.append(c)
+    for _ in range(2):
+        cases.append(gen_batch(ctx, rng, -2, kinds=["CDBD", "HDDDM", "NNDVI", "KDQB"], d=3,
+                               cols=[[rng.randrange(3)], None, rng.sample(range(3), 2), None]))
     for i in range(ns):
         cases.append(gen_stream(ctx, rng, i))
     for i in range(nb):
